@@ -134,6 +134,12 @@ Imp, And, Or, Not = z3.Implies, z3.And, z3.Or, z3.Not
 MP = z3.MultiPattern
 Len = z3.Length
 
+# nonlinear integer arithmetic: the two facts everything else is instantiated from
+a_, c_, q_, r_, t_, p_ = z3.Ints("a_ c_ q_ r_ t_ p_")
+lemma("mul_mono", [a_, x_, c_], Imp(And(a_ <= x_, c_ >= 0), a_ * c_ <= x_ * c_), patterns=None)
+lemma("mul_mono_strict", [a_, x_, c_], Imp(And(a_ < x_, c_ > 0), a_ * c_ < x_ * c_), patterns=None)
+lemma("div_mod_unique", [t_, p_, q_, r_], Imp(And(p_ > 0, t_ == q_ * p_ + r_, 0 <= r_, r_ < p_),
+                                              And(t_ / p_ == q_, t_ % p_ == r_)), patterns=None)
 # pow2
 lemma("pow2_pos", [n_], pow2(n_) >= 1, patterns=[pow2(n_)], induct=("int", n_), auto=True)
 lemma("pow2_step", [n_], Imp(n_ >= 0, pow2(n_ + 1) == 2 * pow2(n_)), patterns=[pow2(n_ + 1)])
@@ -163,10 +169,22 @@ lemma("all_len_upto_frame", [xs_, ys_, n_, k_],
       Imp(k_ <= Len(xs_), all_len_upto(z3.Concat(xs_, ys_), n_, k_) == all_len_upto(xs_, n_, k_)),
       patterns=[all_len_upto(z3.Concat(xs_, ys_), n_, k_)], induct=("int", k_), inst=[[xs_, ys_, n_, k_ - 1]])
 lemma("all_len_append", [xs_, b_, n_], all_len(z3.Concat(xs_, z3.Unit(b_)), n_) == And(all_len(xs_, n_), Len(b_) == n_),
-      patterns=[all_len(z3.Concat(xs_, z3.Unit(b_)), n_)], uses=["all_len_upto_frame"])
+      patterns=[all_len(z3.Concat(xs_, z3.Unit(b_)), n_)], uses=["all_len_upto_frame"],
+      use_inst=[("all_len_upto_frame", [xs_, z3.Unit(b_), n_, Len(xs_)])])
 lemma("all_len_nth", [xs_, n_, k_, i_], Imp(And(all_len_upto(xs_, n_, k_), 0 <= i_, i_ < k_), Len(xs_[i_]) == n_),
       patterns=None, induct=("int", k_), inst=[[xs_, n_, k_ - 1, i_]])
 lemma("joinr_len", [xs_, n_, k_, i_, j_],
       Imp(And(all_len_upto(xs_, n_, k_), 0 <= i_, i_ <= j_, j_ <= k_), Len(joinr(xs_, i_, j_)) == n_ * (j_ - i_)),
       patterns=[MP(joinr(xs_, i_, j_), all_len_upto(xs_, n_, k_))], induct=("int", j_),
-      inst=[[xs_, n_, k_, i_, j_ - 1]], uses=["all_len_nth"])
+      inst=[[xs_, n_, k_, i_, j_ - 1]], uses=["all_len_nth"], use_inst=[("all_len_nth", [xs_, n_, k_, j_ - 1])])
+
+# integers <-> bytes
+lemma("bitlen_bound", [x_], Imp(x_ >= 0, And(x_ < pow2(bitlen(x_)), Imp(x_ > 0, pow2(bitlen(x_) - 1) <= x_))),
+      patterns=[bitlen(x_)], induct=("int", x_), inst=[[x_ / 2]])
+lemma("pow2_8", [n_], Imp(n_ >= 0, pow2(n_ + 8) == 256 * pow2(n_)), patterns=[pow2(n_ + 8)], depth=9)
+lemma("b2i_snoc", [b_, x_], Imp(And(0 <= x_, x_ < 256),
+                                b2i(z3.Concat(b_, z3.Unit(z3.Int2BV(x_, 8)))) == 256 * b2i(b_) + x_),
+      patterns=[b2i(z3.Concat(b_, z3.Unit(z3.Int2BV(x_, 8))))])
+lemma("b2i_i2b", [x_, w_], Imp(And(0 <= x_, w_ >= 0, x_ < pow2(8 * w_)), b2i(i2b(x_, w_)) == x_),
+      patterns=[b2i(i2b(x_, w_))], induct=("int", w_), inst=[[x_ / 256, w_ - 1]], uses=["b2i_snoc", "pow2_8"],
+      use_inst=[("b2i_snoc", [i2b(x_ / 256, w_ - 1), x_ % 256]), ("pow2_8", [8 * (w_ - 1)])])
